@@ -6,7 +6,7 @@ import (
 	"path/filepath"
 
 	"verifmc/explore"
-	_ "verifmc/scen"
+	"verifmc/scen"
 )
 
 func main() {
@@ -31,6 +31,17 @@ func main() {
 		os.Exit(explore.ParentMain(self, os.Args[2], tier, verifDir))
 	case "replay":
 		os.Exit(explore.ReplayMain(os.Args[2], os.Args[3]))
+	case "racepass":
+		// advisory free-running pass for a binary built with -race (tools/racepass.sh)
+		rounds := 3
+		if len(os.Args) > 2 {
+			fmt.Sscanf(os.Args[2], "%d", &rounds)
+		}
+		ran, problems := scen.RacePass(rounds)
+		fmt.Printf("racepass: bodies=%d oracle_mismatches=%d\n", len(ran), len(problems))
+		for _, p := range problems {
+			fmt.Println("  mismatch:", p)
+		}
 	case "list":
 		for _, id := range explore.IDs() {
 			fmt.Println(id)
